@@ -94,6 +94,10 @@ class _CircuitAttacher(object):
         except KeyError:
             return
 
+        # this stream was meant for one particular circuit: if that
+        # circuit can't be used, the stream must not end up on
+        # whatever other circuit Tor would pick
+        from txtorcon.torstate import TorState
         try:
             yield circuit.when_built()
             if circuit.state in ['FAILED', 'CLOSED', 'DETACHED']:
@@ -102,11 +106,12 @@ class _CircuitAttacher(object):
                         circuit=circuit,
                     )
                 )))
-                return
+                return TorState.DO_NOT_ATTACH
             d.callback(None)
             return circuit
         except Exception:
             d.errback(Failure())
+            return TorState.DO_NOT_ATTACH
 
 
 @defer.inlineCallbacks
